@@ -52,3 +52,5 @@ package pmsg
 //@   opaque RemoveChainsByInstance
 //@   at RemoveChainsByInstance 1
 //@     before[the_chain_exchange_is_pruned_below_the_requested_instance] arg(0) == pmm.chainex && arg(2) == instance && ok
+//@   at loopback 1
+//@     before[every_prune_request_reaches_the_chain_exchange] res(chanselect, 1, 0) == 3 ==> called(RemoveChainsByInstance, 1)
